@@ -207,4 +207,21 @@ func API.decodeBasedOnType
   ghost before call TypeSettings.MinMaxLen: assert opts.validation
   ghost after call TypeSettings.MinMaxLen: bounded = true
   ghost before call Deserializer.ReadString: assert !bounded ==> arg4 == 0 && arg5 == 0
+  -- precedence of settings, the same on both sides of the codec: what the caller hands in (struct tag, option) is merged
+  -- OVER what the registry has for the type - the registry only fills the gaps
+  ghost local reg Int
+  ghost after call TypeSettingsRegistry.GetByType: reg = 1
+  ghost before call TypeSettings.merge: assert arg0 == ts
+
+-- the encoder's side of the same rule
+func API.encodeBasedOnType
+  opt only-ghost-asserts
+  opt assume-type-asserts
+  requires api != nil
+  modifies everything
+  ghost before call TypeSettings.merge: assert arg0 == ts
+
+-- DecodeHex (JSON byte strings): no input makes it panic (what hexutil does with the string is outside this claim)
+func DecodeHex
+  modifies everything
 @*/
